@@ -221,6 +221,50 @@ example (t : α) (p : VanaOwen.VOPath α) (s1 s2 o : Vana.St5 α) :
 
 end AF3
 
+/-! ## the `DUBINS_ZERO` band of the four CSC solvers (the tolerance a seeded change removed) -/
+section CSC
+variable {α : Type} [DNum α]
+
+/-- the radicand `tmp` (squared length of the straight segment) of the four CSC solvers, as coded -/
+def cscTmp (w : Word) (d alpha beta : α) : α :=
+  let ca := Num.cos alpha; let sa := Num.sin alpha; let cb := Num.cos beta; let sb := Num.sin beta
+  match w with
+  | .LSL => 2 + d * d - 2 * (ca * cb + sa * sb - d * (sa - sb))
+  | .RSR => 2 + d * d - 2 * (ca * cb + sa * sb - d * (sb - sa))
+  | .RSL => d * d - 2 + 2 * (ca * cb + sa * sb - d * (sa + sb))
+  | .LSR => -2 + d * d + 2 * (ca * cb + sa * sb + d * (sa + sb))
+  | _ => 0
+
+def isCSC : Word → Bool
+  | .LSL | .RSR | .RSL | .LSR => true
+  | _ => false
+
+/-- [AF] **a CSC word is accepted exactly when `tmp >= DUBINS_ZERO`** (`-1e-7`, not `0`): the statement holds of the `Float` run, so a
+radicand of `-1e-16` (a zero-length straight segment after rounding: pure turns, two tangent arcs) is accepted.  With the test
+`tmp >= 0` (seeded change C14-s7) the left side is false there; the lock step on `dword` / `path` shows the difference and the
+six-word oracle turns it into a `not-minimal` input. -/
+theorem csc_accept_iff (m2p : α → α) (w : Word) (hw : isCSC w = true) (d alpha beta : α) :
+    (solve m2p w d alpha beta).isSome = true ↔ dzero ≤ cscTmp w d alpha beta := by
+  cases w <;> simp [isCSC] at hw <;>
+    simp only [solve, dubinsLSL, dubinsRSR, dubinsRSL, dubinsLSR, cscTmp] <;> split <;> simp_all
+
+example (m2p : α → α) (d a b : α) (h : dzero ≤ cscTmp .RSL d a b) : (solve m2p .RSL d a b).isSome = true :=
+  (csc_accept_iff m2p .RSL rfl d a b).2 h
+
+/-- [AF] **the straight segment of an accepted CSC word is `sqrt(max(tmp, 0))`** (the clamp), the word is the one asked for and
+is not marked reversed. -/
+theorem csc_straight_eq (m2p : α → α) (w : Word) (hw : isCSC w = true) (d alpha beta : α) (P : Path α)
+    (h : solve m2p w d alpha beta = some P) :
+    P.w = w ∧ P.p = Num.sqrt (Num.max (cscTmp w d alpha beta) 0) ∧ P.rev = false := by
+  cases w <;> simp [isCSC] at hw <;>
+    simp only [solve, dubinsLSL, dubinsRSR, dubinsRSL, dubinsLSR, cscTmp] at h ⊢ <;> split at h <;> simp_all <;>
+    (subst h; simp)
+
+example (m2p : α → α) (d a b : α) (P : Path α) (h : solve m2p .LSL d a b = some P) : P.w = .LSL :=
+  (csc_straight_eq m2p .LSL rfl d a b P h).1
+
+end CSC
+
 /-! ## [EX] the statements discriminate: variants without the scratch object / with a reordered write break exactly when `state == from` -/
 section EX
 attribute [-instance] Num.instOfNat
@@ -266,6 +310,24 @@ theorem turn_yawfirst_breaks_alias :
 
 example (r a : ℝ) (s1 s2 o : Pose ℝ) : (turnIntoYawFirst poseView .frm r a .out (callMem s1 s2 o)).get .out = Owen.turn s1 r a := by
   simp [turnIntoYawFirst, poseView, callMem, Mem.get, Mem.set, Owen.turn]
+
+/-- [EX] **inside the band `DUBINS_ZERO <= tmp <= 0` the word is returned with a straight segment of length exactly 0** — the
+degenerate optimal words (single arc, two tangent arcs) exist in the model whichever way the rounding of `tmp` falls. -/
+theorem csc_band_zero_straight (m2p : ℝ → ℝ) (w : Word) (hw : isCSC w = true) (d a b : ℝ)
+    (hlo : -(1 / 10 ^ 7 : ℝ) ≤ cscTmp w d a b) (hhi : cscTmp w d a b ≤ 0) :
+    ∃ P, solve m2p w d a b = some P ∧ P.p = 0 := by
+  have hacc : (solve m2p w d a b).isSome = true := (csc_accept_iff m2p w hw d a b).2 (by simpa using hlo)
+  obtain ⟨P, hP⟩ := Option.isSome_iff_exists.1 hacc
+  refine ⟨P, hP, ?_⟩
+  rw [(csc_straight_eq m2p w hw d a b P hP).2.1]
+  simp [max_eq_right hhi]
+
+-- non-vacuous: same position, same heading has `tmp = 0` exactly for LSL
+example (m2p : ℝ → ℝ) (a : ℝ) : ∃ P, solve m2p .LSL 0 a a = some P ∧ P.p = 0 := by
+  have h0 : cscTmp .LSL (0 : ℝ) a a = 0 := by
+    simp only [cscTmp, cos_eq, sin_eq, ofNat_two]
+    nlinarith [Real.sin_sq_add_cos_sq a]
+  exact csc_band_zero_straight m2p .LSL rfl 0 a a (by rw [h0]; norm_num) (by rw [h0])
 
 end EX
 
